@@ -3,3 +3,6 @@ import XtModel.Model.Encoding
 import XtModel.Props.C07
 import XtModel.Model.TomlOrder
 import XtModel.Props.C01
+import XtModel.Model.Input
+import XtModel.Model.Detect
+import XtModel.Props.C09
